@@ -6,7 +6,8 @@
    finder theorems hold for every oracle. *)
 From Coq Require Import ZArith List Bool Lia Permutation.
 From CSS Require Import Base.PyList Tree.Model Tree.Basics Tree.Valid Tree.PruneProofs
-  Tree.IterProofs Tree.RandomProofs Tree.DfsProofs Tree.SpecProofs Tree.FuelProofs Tree.MinProofs.
+  Tree.IterProofs Tree.RandomProofs Tree.DfsProofs Tree.SpecProofs Tree.FuelProofs Tree.MinProofs
+  Tree.ProgressProofs.
 From CSS Require Gen.TreePruneRuleTest Gen.TreeIterativePruneRuleTest Gen.TreeIterativeFinderRuleTest.
 From CSS Require Import Tree.GenBridge.
 Import ListNotations.
@@ -187,6 +188,92 @@ Proof.
   assert (E : [2] = [3]); [|discriminate E].
   apply V3; try discriminate; vm_compute; auto.
 Qed.
+
+(* 7b. PROGRESS of the random finders (Tree/ProgressProofs.v).  A run of random is
+   defined independently of the model answering:
+     legit d cs queue seen : the head answer (r, sh) has r in rules_of d v for the
+       popped label v (what random.choice can return on list(rules_dict[v])); if v
+       is new and r <> () then sh is a permutation of r (what random.shuffle can
+       leave); the rest is a run from the next loop state, down to the empty queue;
+     legit_pre : the same for a PREFIX of a run (the answers may stop early).
+   C05_random_answers_iff_legit: the model returns a tree EXACTLY on the runs of
+   random - so "oracle on which the model returns Some" in the validity theorems
+   above means "run of random", nothing else. *)
+Theorem C05_random_answers_iff_legit : forall d root cs,
+  random_proof_tree d root cs <> None <-> legit d cs [root] [].
+Proof. exact random_answers_iff_legit. Qed.
+
+(* `while queue` terminates: from any loop state, any answered run pops at most
+   |queue| + pot d seen nodes (pot = sum, over the dictionary entries whose label is
+   not yet in seen, of the largest arity in the entry); from the initial state that
+   is pop_bound d = 1 + sum of the largest arities.  No hypothesis on d. *)
+Theorem C05_random_pops_bound : forall d cs queue seen D,
+  bfs d cs queue seen = Some D -> (length D <= length queue + pot d seen)%nat.
+Proof. exact bfs_pops_bound. Qed.
+
+(* the finder ANSWERS on every complete run of random, within the bound.  (The three
+   hypotheses on d are those of the property; a COMPLETE run already presupposes
+   that every consulted rule set had an element, so the proof does not use them -
+   they are what makes runs exist and prefixes extensible: next two theorems.) *)
+Theorem C05_random_finder_total : forall d root cs,
+  closed d -> all_nonempty d -> has_key d root = true ->
+  legit d cs [root] [] ->
+  exists t D, bfs d cs [root] [] = Some D /\ (length D <= pop_bound d)%nat /\
+              random_proof_tree d root cs = Some t.
+Proof. exact random_finder_total. Qed.
+
+(* the same for a source of answers that is only known to be legitimate as far as
+   it goes: pop_bound d answers are enough (no out-of-answers = no out-of-fuel) *)
+Theorem C05_random_finder_total_prefix : forall d root cs,
+  legit_pre d cs [root] [] -> (pop_bound d <= length cs)%nat ->
+  exists t D, bfs d cs [root] [] = Some D /\ (length D <= pop_bound d)%nat /\
+              random_proof_tree d root cs = Some t.
+Proof. exact random_finder_total_prefix. Qed.
+
+(* NO STUCK STATE on a pruned dictionary: whatever random legitimately answered so
+   far, the run can be completed (every label that reaches the queue is a key with a
+   non-empty rule set: no KeyError, no IndexError from choice([])), and the completed
+   run is answered.  In particular (cs = []) runs exist. *)
+Theorem C05_random_finder_never_stuck : forall d root cs,
+  closed d -> all_nonempty d -> has_key d root = true ->
+  legit_pre d cs [root] [] ->
+  exists cs' t, legit d (cs ++ cs') [root] [] /\
+                random_proof_tree d root (cs ++ cs') = Some t.
+Proof. exact random_finder_never_stuck. Qed.
+
+(* both hypotheses on d are needed: a child that is not a key, resp. an empty rule
+   set, is a state in which random.choice has no legitimate answer *)
+Theorem C05_random_stuck_if_not_closed :
+  let d := [(0, [[1]])] in
+  has_key d 0 = true /\ all_nonempty d /\ legit_pre d [([1], [1])] [0] [] /\
+  forall cs', ~ legit d ([([1], [1])] ++ cs') [0] [].
+Proof. exact stuck_if_not_closed. Qed.
+
+Theorem C05_random_stuck_if_empty_ruleset :
+  let d := [(0, [])] in
+  has_key d 0 = true /\ closed d /\ forall cs, ~ legit d cs [0] [].
+Proof. exact stuck_if_empty_ruleset. Qed.
+
+(* smallish: one run of random per tree built (at least one) *)
+Theorem C05_smallish_finder_total : forall d root runs,
+  closed d -> all_nonempty d -> has_key d root = true ->
+  runs <> [] -> Forall (fun cs => legit d cs [root] []) runs ->
+  exists t, smallish_random_proof_tree d root runs = Some t.
+Proof. exact smallish_finder_total. Qed.
+
+(* 7c. what IS true of every tree the breadth-first generator yields (for every d,
+   closed or not): the root label, conjunct 1 (only dictionary rules) and conjunct 2
+   (no label without a rule) of valid_rules.  PARTIAL: conjunct 3 (one rule per
+   label) is false (C05_bfs_generator_refuted, open finding); nothing here says that
+   every choice of rules is yielded, or yielded once (oracle only), and there is no
+   fuel theorem for bfs_helper. *)
+Theorem C05_bfs_partial : forall d root t,
+  In t (proof_tree_generator_bfs d root) ->
+  label t = root /\
+  (forall l cs, In (l, cs) (node_rules t) -> cs <> [] ->
+     exists r, In r (rules_of d l) /\ Permutation r cs) /\
+  (forall l, In (l, []) (node_rules t) -> In [] (rules_of d l) \/ expanded (node_rules t) l).
+Proof. exact bfs_sound. Qed.
 
 (* ---------------------------------------------------------------- examples *)
 (* hypotheses are satisfiable and the interesting branches are exercised *)
@@ -421,6 +508,83 @@ Proof.
   split; [vm_compute; reflexivity|]. split; [vm_compute; reflexivity|].
   exact (C05_tree_valid_iterative aI 4).
 Qed.
+
+(* --- progress of the random finders: a_runA is a run of random on aF (shown by the
+   definition, not by running the model), so the finder answers within the bound *)
+Lemma a_runA_legit : legit aF a_runA [0] [].
+Proof.
+  unfold a_runA.
+  eapply legit_exp; [left; reflexivity|intros []|discriminate|apply Permutation_refl|].
+  eapply legit_exp; [left; reflexivity|intros [H|[]]; discriminate|discriminate|apply Permutation_refl|].
+  eapply legit_leaf; [right; left; reflexivity|right; reflexivity|].
+  eapply legit_leaf; [right; left; reflexivity|left; left; reflexivity|].
+  apply legit_done.
+Qed.
+
+Example C05_random_finder_total_nonvacuous :
+  exists t D, bfs aF a_runA [0] [] = Some D /\ (length D <= pop_bound aF)%nat /\
+              random_proof_tree aF 0 a_runA = Some t.
+Proof.
+  apply C05_random_finder_total; [exact aF_closed|apply all_nonempty_check; reflexivity
+                                  |reflexivity|exact a_runA_legit].
+Qed.
+
+Example C05_random_finder_total_value :
+  pop_bound aF = 7%nat /\ random_proof_tree aF 0 a_runA = Some a_tA /\
+  option_map (@length _) (bfs aF a_runA [0] []) = Some 4%nat.
+Proof. vm_compute. auto. Qed.
+
+Example C05_random_answers_iff_legit_nonvacuous :
+  legit aF a_runB [0] [] /\ ~ legit aF [([2], [1])] [0] [].
+Proof.
+  split.
+  - apply C05_random_answers_iff_legit. vm_compute. discriminate.
+  - intros H. apply C05_random_answers_iff_legit in H. apply H. vm_compute. reflexivity.
+Qed.
+
+Example C05_random_pops_bound_nonvacuous :
+  forall D, bfs aF a_runB [0] [] = Some D -> (length D <= 7)%nat.
+Proof. intros D H. apply C05_random_pops_bound in H. exact H. Qed.
+
+(* two legitimate answers given, then the source is cut off: it can be completed *)
+Example C05_random_finder_never_stuck_nonvacuous :
+  exists cs' t, legit aF ([([2], [2]); ([1; 1; 1], [1; 1; 1])] ++ cs') [0] [] /\
+                random_proof_tree aF 0 ([([2], [2]); ([1; 1; 1], [1; 1; 1])] ++ cs') = Some t.
+Proof.
+  apply C05_random_finder_never_stuck; [exact aF_closed|apply all_nonempty_check; reflexivity
+                                        |reflexivity|].
+  eapply pre_exp; [right; left; reflexivity|intros []|discriminate|apply Permutation_refl|].
+  eapply pre_exp; [left; reflexivity|intros [H|[]]; discriminate|discriminate|apply Permutation_refl|].
+  apply pre_short.
+Qed.
+
+Example C05_random_finder_total_prefix_nonvacuous :
+  exists t D, bfs aF (a_runA ++ a_runB) [0] [] = Some D /\ (length D <= pop_bound aF)%nat /\
+              random_proof_tree aF 0 (a_runA ++ a_runB) = Some t.
+Proof.
+  apply C05_random_finder_total_prefix; [|vm_compute; lia].
+  apply legit_is_pre. apply C05_random_answers_iff_legit. vm_compute. discriminate.
+Qed.
+
+Example C05_smallish_finder_total_nonvacuous :
+  exists t, smallish_random_proof_tree aF 0 [a_runB; a_runA] = Some t.
+Proof.
+  apply C05_smallish_finder_total; [exact aF_closed|apply all_nonempty_check; reflexivity
+                                    |reflexivity|discriminate|].
+  apply Forall_cons; [|apply Forall_cons; [exact a_runA_legit|apply Forall_nil]].
+  apply C05_random_answers_iff_legit. vm_compute. discriminate.
+Qed.
+
+(* --- the breadth-first generator: the finding's invalid tree still satisfies
+   conjuncts 1-2 *)
+Example C05_bfs_partial_nonvacuous :
+  let d := [(0, [[1; 1]]); (1, [[2]; [3]]); (2, [[]]); (3, [[]])] in
+  let t := Node 0 [Node 1 [Node 2 []]; Node 1 [Node 3 []]] in
+  label t = 0 /\
+  (forall l cs, In (l, cs) (node_rules t) -> cs <> [] ->
+     exists r, In r (rules_of d l) /\ Permutation r cs) /\
+  (forall l, In (l, []) (node_rules t) -> In [] (rules_of d l) \/ expanded (node_rules t) l).
+Proof. apply C05_bfs_partial. vm_compute. auto. Qed.
 
 (* --- size *)
 Example C05_size_formula_nonvacuous :
@@ -689,6 +853,35 @@ Proof.
   - destruct Hb as (-> & _). split; [tauto|discriminate].
 Qed.
 
+(* PROGRESS on the code path (corollary of 7b): for a recursive pack, after
+   has_specification() = True, _get_specification_node RETURNS A TREE whenever the
+   recorded answers of random are runs of random on the cached pruned dictionary (at
+   least one run: the first tree is built before the time limit is looked at): the
+   outcome NNoRun of node_ok is then excluded, as are NNotFound / NFinder / NInvalid.
+   (That such runs exist, and that every legitimate prefix extends to one, is
+   C05_random_finder_never_stuck on the closed dictionary prune returns.) *)
+Theorem C05_finder_answers_on_runs_of_random : forall h x ans x1 sm runs listed x2 r,
+  iterative = false ->
+  cexec rinit h = Some (x, ans) -> c_has_spec x = Some (x1, true) ->
+  c_node x1 sm runs listed = Some (x2, r) ->
+  runs <> [] ->
+  (forall pd, r_cache x1 = Some pd ->
+     Forall (fun cs => legit pd cs [repf (r_eq x1) root_label] []) runs) ->
+  exists t, r = NTree t.
+Proof.
+  intros h x ans x1 sm runs listed x2 r Hit H HS N Hne Hruns.
+  destruct (C05_finder_total_after_has_specification h x ans x1 sm runs listed x2 r H HS N)
+    as (pd & C & OK).
+  destruct r as [| |t|fr|]; simpl in OK.
+  - contradiction.
+  - destruct OK as (Hi & _). congruence.
+  - eauto.
+  - contradiction.
+  - rewrite Hit in OK. exfalso.
+    exact (smallish_answers_on_runs pd _ runs Hne (Hruns pd C) OK).
+Qed.
+
+
 (* (c) the labels pruned_dict marks verified are exactly the classes of the fixed point:
    after a has_specification that recomputes, a label is verified iff its class contains a
    label that was verified before (verification rules, earlier runs: marks are never
@@ -904,6 +1097,21 @@ Proof.
     [exact ac_exec|vm_compute; reflexivity|vm_compute; reflexivity].
 Qed.
 
+(* the recorded answers ac_runs ARE a run of random on the cached dictionary (decided
+   from the definition via C05_random_answers_iff_legit), hence a tree comes back *)
+Example C05_finder_answers_on_runs_of_random_nonvacuous :
+  exists x1 x2 r, c_has_spec isort 0 false ac_x = Some (x1, true) /\
+    c_node isort 0 false x1 true ac_runs [] = Some (x2, r) /\ exists t, r = NTree t.
+Proof.
+  eexists _, _, _. split; [vm_compute; reflexivity|]. split; [vm_compute; reflexivity|].
+  eapply (C05_finder_answers_on_runs_of_random isort isort_In isort_len 0 false ac_h ac_x ac_a _ true ac_runs []);
+    [reflexivity|exact ac_exec|vm_compute; reflexivity|vm_compute; reflexivity|discriminate|].
+  intros pd E. vm_compute in E. inversion E; subst pd.
+  apply Forall_cons; [|apply Forall_nil].
+  apply C05_random_answers_iff_legit. vm_compute. discriminate.
+Qed.
+
+
 Example C05_finder_total_iterative_nonvacuous :
   exists x1 x2 t, c_has_spec isort 0 true ai_x = Some (x1, true) /\
     c_node isort 0 true x1 false [] [(2, [[2; 5]]); (5, [[]])] = Some (x2, NTree t) /\
@@ -1040,3 +1248,13 @@ Print Assumptions C05_is_verified_answer.
 Print Assumptions C05_recompute_idem.
 Print Assumptions C05_pruned_dict_cache_transparent.
 Print Assumptions C05_never_caching_same_answers.
+Print Assumptions C05_random_answers_iff_legit.
+Print Assumptions C05_random_pops_bound.
+Print Assumptions C05_random_finder_total.
+Print Assumptions C05_random_finder_total_prefix.
+Print Assumptions C05_random_finder_never_stuck.
+Print Assumptions C05_random_stuck_if_not_closed.
+Print Assumptions C05_random_stuck_if_empty_ruleset.
+Print Assumptions C05_smallish_finder_total.
+Print Assumptions C05_bfs_partial.
+Print Assumptions C05_finder_answers_on_runs_of_random.
